@@ -203,10 +203,22 @@ def finish(mod, tier, seed, acc, nshards, wall, replay_dir):
         v = next((w for w in acc.violations if w['sig'] == sig), None)
         name = hashlib.blake2b(sig.encode(), digest_size=6).hexdigest()
         path = os.path.join(replay_dir, f'{pid}_{name}.json')
+        # replay the minimal case twice with plain calls: the same case must fail every time
+        reproduced = None
+        if v is not None and hasattr(mod, 'replay') and v['case'].get('kind') != 'shard':
+            try:
+                r1 = sorted(x['sig'] for x in mod.replay(v['case']))
+                r2 = sorted(x['sig'] for x in mod.replay(v['case']))
+                reproduced = bool(r1) and r1 == r2
+            except Exception as ex:
+                reproduced = f'replay raised {type(ex).__name__}'
         with open(path, 'w') as fh:
             json.dump({'property': pid, 'sig': sig,
                        'count': acc.viol_count[sig],
+                       'reproduced_on_replay_twice': reproduced,
                        'violation': v}, fh, indent=1, default=str)
+        if reproduced is not True and reproduced is not None:
+            lines.append(f'  warning: replay of this case did not reproduce the violation identically ({reproduced})')
         new_paths.append((sig, path, v))
         lines.append(f'VIOLATION property={pid} replay={path}')
         if v is not None:
@@ -286,6 +298,8 @@ def main(modname, argv):
         print(f'REPLAY-OK property={mod.ID}: case no longer violates')
         return 0
     t0 = time.time()
+    from gmc import sim
+    sim.determinism_selfcheck()
     acc, n = explore(mod, a.tier, seed, a.jobs)
     # determinism self-check: replay first sample twice if the module offers it
     if hasattr(mod, 'selfcheck'):
